@@ -6,6 +6,7 @@ import (
 	"encoding/base64"
 	"encoding/json"
 	"fmt"
+	"math/big"
 	"net/http"
 	"reflect"
 	"sync"
@@ -387,7 +388,7 @@ var (
 )
 
 func genInj(t *rapid.T) InjCase {
-	c := InjCase{Kind: rapid.SampledFrom([]string{"injectable", "injectable", "injectable", "no-resource", "resource-not-object", "headers-not-object",
+	c := InjCase{Kind: rapid.SampledFrom([]string{"injectable", "injectable", "injectable", "injectable-big-numbers", "no-resource", "resource-not-object", "headers-not-object",
 		"array", "scalar", "invalid-json", "empty-object", "nested-deeper", "two-documents", "object-plus-trailer", "object-plus-whitespace"}).Draw(t, "kind"), Binary: rapid.IntRange(0, 3).Draw(t, "bin") == 0}
 	names := []string{"Authorization", "X-Custom", "Cookie", "X-Forwarded-For", "Accept-Language"}
 	n := rapid.IntRange(0, 4).Draw(t, "nheaders")
@@ -409,6 +410,10 @@ func (c *InjCase) message() []byte {
 	case "injectable":
 		b, _ := json.Marshal(map[string]any{"resource": map[string]any{"headers": hdrs, "uri": "/x" + c.Extra}, "n": 17, "f": 0.5, "list": []any{1, "a", nil, true}})
 		return b
+	case "injectable-big-numbers":
+		// numbers that binary64 cannot hold exactly: they are part of the message and must arrive as the same JSON values
+		h, _ := json.Marshal(hdrs)
+		return []byte(`{"resource":{"headers":` + string(h) + `},"id":9007199254740993,"max":18446744073709551615,"neg":-9223372036854775809,"dec":0.1000000000000000055511151231257827,"list":[12345678901234567890123,1.5]}`)
 	case "nested-deeper":
 		b, _ := json.Marshal(map[string]any{"resource": map[string]any{"headers": hdrs, "inner": map[string]any{"resource": map[string]any{"headers": map[string]any{}}}}})
 		return b
@@ -436,6 +441,38 @@ func (c *InjCase) message() []byte {
 	default:
 		return []byte(`{"resource": {"headers": {` + c.Extra)
 	}
+}
+
+// decodeExact decodes JSON keeping numbers exact: every number becomes the canonical text of its rational value, so
+// that 1.0 and 1 compare equal but 9007199254740993 and 9007199254740992 do not.
+func decodeExact(data []byte, into *any) error {
+	dec := json.NewDecoder(bytes.NewReader(data))
+	dec.UseNumber()
+	var v any
+	if err := dec.Decode(&v); err != nil {
+		return err
+	}
+	*into = exactNumbers(v)
+	return nil
+}
+
+func exactNumbers(v any) any {
+	switch x := v.(type) {
+	case json.Number:
+		if r, ok := new(big.Rat).SetString(string(x)); ok {
+			return "number:" + r.RatString()
+		}
+		return "number:" + string(x)
+	case map[string]any:
+		for k, e := range x {
+			x[k] = exactNumbers(e)
+		}
+	case []any:
+		for i, e := range x {
+			x[i] = exactNumbers(e)
+		}
+	}
+	return v
 }
 
 func runInj(c *InjCase) vh.Outcome {
@@ -479,7 +516,7 @@ func runInj(c *InjCase) vh.Outcome {
 		o.Err = fmt.Errorf("message type changed by injection")
 		return o
 	}
-	injectable := c.Kind == "injectable" || c.Kind == "nested-deeper" || c.Kind == "object-plus-whitespace"
+	injectable := c.Kind == "injectable" || c.Kind == "nested-deeper" || c.Kind == "object-plus-whitespace" || c.Kind == "injectable-big-numbers"
 	o.Classes = append(o.Classes, c.Kind)
 	if !injectable {
 		if !bytes.Equal(got.Data, msg) {
@@ -489,8 +526,8 @@ func runInj(c *InjCase) vh.Outcome {
 	}
 	o.NonTrivial = len(c.Headers) > 0
 	var want, have any
-	json.Unmarshal(msg, &want)
-	if err := json.Unmarshal(got.Data, &have); err != nil {
+	decodeExact(msg, &want)
+	if err := decodeExact(got.Data, &have); err != nil {
 		o.Err = fmt.Errorf("injected message is not valid JSON: %v", err)
 		return o
 	}
